@@ -2,7 +2,10 @@ package main
 
 // C34 — block bodies are bound to their headers at decode time.
 //
-// op:  mut <fixture> <skip 0|1> <splices>
+// op:  mut <fixture> <skip 0|1>[+<mask>] <splices>
+//      mask = bit i set ⇒ the i-th OTHER boolean field of common.VerifyConfig (declaration
+//      order, SkipBodyHashValidation left out; enumerated by reflection, so a new toggle is
+//      picked up) is true: the binding must hold whatever the unrelated toggles say
 //      fixture = era[.k]  (real block read BY PATH from the repository under test)
 //      splices = "-" (the real block) or off:del:hex;off:del:hex... applied to the real block
 // out: <verdict> ;; <facts>
@@ -19,6 +22,8 @@ import (
 	"fmt"
 	"os"
 	"path/filepath"
+	"reflect"
+	"strconv"
 	"strings"
 	"sync"
 	"time"
@@ -116,7 +121,11 @@ func runC34(op string) string {
 	if len(f) == 5 && f[0] == "pair" {
 		return runC34Pair(f)
 	}
-	if len(f) != 4 || f[0] != "mut" || (f[2] != "0" && f[2] != "1") {
+	if len(f) != 4 || f[0] != "mut" {
+		return "bad-op"
+	}
+	skip, mask, okf := c34ParseFlags(f[2])
+	if !okf {
 		return "bad-op"
 	}
 	fx := c34Find(f[1])
@@ -135,18 +144,54 @@ func runC34(op string) string {
 	if !ok {
 		return "bad-op"
 	}
-	skip := f[2] == "1"
-	verdict := c34Decode(fx, data, skip)
-	return verdict + " ;; " + c34Facts(fx, orig, data, skip)
+	verdict := c34Decode(fx, data, skip, mask)
+	return verdict + " ;; " + c34Facts(fx, orig, data, skip) + fmt.Sprintf(" flags=%d", mask)
+}
+
+// c34OtherFlags: the boolean fields of common.VerifyConfig other than SkipBodyHashValidation.
+func c34OtherFlags() []string {
+	var out []string
+	t := reflect.TypeOf(common.VerifyConfig{})
+	for i := 0; i < t.NumField(); i++ {
+		if t.Field(i).Type.Kind() == reflect.Bool && t.Field(i).Name != "SkipBodyHashValidation" {
+			out = append(out, t.Field(i).Name)
+		}
+	}
+	return out
+}
+
+func c34ParseFlags(tok string) (skip bool, mask uint64, ok bool) {
+	parts := strings.SplitN(tok, "+", 2)
+	if parts[0] != "0" && parts[0] != "1" {
+		return false, 0, false
+	}
+	skip = parts[0] == "1"
+	if len(parts) == 2 {
+		m, err := strconv.ParseUint(parts[1], 10, 32)
+		if err != nil || m >= 1<<uint(len(c34OtherFlags())) {
+			return false, 0, false
+		}
+		mask = m
+	}
+	return skip, mask, true
+}
+
+func c34Config(skip bool, mask uint64) common.VerifyConfig {
+	var cfg common.VerifyConfig
+	cfg.SkipBodyHashValidation = skip
+	v := reflect.ValueOf(&cfg).Elem()
+	for i, name := range c34OtherFlags() {
+		if mask&(1<<uint(i)) != 0 {
+			v.FieldByName(name).SetBool(true)
+		}
+	}
+	return cfg
 }
 
 // pair <fixture> <skip> <splicesA> <splicesB>: two variants of one block. The property's own
 // shape: two blocks with the same header bytes and different committed body content must not
 // both be accepted with validation on.
 func runC34Pair(f []string) string {
-	if f[2] != "0" && f[2] != "1" {
-		return "bad-op"
-	}
 	fx := c34Find(f[1])
 	if fx == nil {
 		return "bad-op"
@@ -165,8 +210,11 @@ func runC34Pair(f []string) string {
 	if !ok1 || !ok2 {
 		return "bad-op"
 	}
-	skip := f[2] == "1"
-	va, vb := c34Decode(fx, a, skip), c34Decode(fx, b, skip)
+	skip, mask, okf := c34ParseFlags(f[2])
+	if !okf {
+		return "bad-op"
+	}
+	va, vb := c34Decode(fx, a, skip, mask), c34Decode(fx, b, skip, mask)
 	ia, _, oka := c34Split(a)
 	ib, _, okb := c34Split(b)
 	samehdr, bodydiff := "u", "u"
@@ -206,7 +254,7 @@ func c34PairClass(va, vb string) string {
 	return "neither"
 }
 
-func c34Decode(fx *c34Fixture, data []byte, skip bool) (verdict string) {
+func c34Decode(fx *c34Fixture, data []byte, skip bool, mask uint64) (verdict string) {
 	defer func() {
 		if e := recover(); e != nil {
 			verdict = "err:panic"
@@ -215,8 +263,8 @@ func c34Decode(fx *c34Fixture, data []byte, skip bool) (verdict string) {
 	var blk ledger.Block
 	var err error
 	// validation is ON by default: exercise the no-config call for skip=0
-	if skip {
-		blk, err = ledger.NewBlockFromCbor(fx.btype, data, common.VerifyConfig{SkipBodyHashValidation: true})
+	if skip || mask != 0 {
+		blk, err = ledger.NewBlockFromCbor(fx.btype, data, c34Config(skip, mask))
 	} else {
 		blk, err = ledger.NewBlockFromCbor(fx.btype, data)
 	}
@@ -602,7 +650,24 @@ func genC34(r *Rand, n int, tier string, emit func(string)) {
 		return
 	}
 	count := 0
+	nflags := len(c34OtherFlags())
+	// withFlags rewrites the <skip> token of an op to <skip>+<mask>
+	withFlags := func(op string, mask uint64) string {
+		if mask == 0 {
+			return op
+		}
+		f := strings.SplitN(op, " ", 4)
+		if len(f) < 4 || (f[0] != "mut" && f[0] != "pair") {
+			return op
+		}
+		f[2] = fmt.Sprintf("%s+%d", f[2], mask)
+		return strings.Join(f, " ")
+	}
 	out := func(s string) {
+		// a third of all ops run under a random combination of the unrelated VerifyConfig toggles
+		if nflags > 0 && r.Chance(1, 3) {
+			s = withFlags(s, uint64(r.Intn(1<<uint(nflags))))
+		}
 		emit(s)
 		count++
 	}
@@ -610,6 +675,63 @@ func genC34(r *Rand, n int, tier string, emit func(string)) {
 	for _, s := range sites {
 		out(c34Op(s.fx, false, nil))
 		out(c34Op(s.fx, true, nil))
+	}
+	// 1b. the full matrix of the OTHER VerifyConfig toggles x every fixture x {real block, one
+	// byte changed in every top-level body element, and for Byron in each of the four payloads
+	// (tx, ssc, dlg, upd) incl. dlg <-> upd swapped}: with body validation on the verdict must
+	// not depend on them
+	for mask := uint64(0); mask < 1<<uint(nflags); mask++ {
+		for _, s := range sites {
+			d, top, fx := s.data, s.top, s.fx
+			emit(withFlags(c34Op(fx, false, nil), mask))
+			count++
+			var targets []c34Node
+			for i := 1; i < len(top.kids); i++ {
+				targets = append(targets, top.kids[i])
+			}
+			if fx.layout == c34ByronMain && len(top.kids) >= 2 && len(top.kids[1].kids) >= 4 {
+				body := top.kids[1]
+				targets = append(targets, body.kids[0], body.kids[1], body.kids[2], body.kids[3])
+				dlg, upd := body.kids[2], body.kids[3]
+				if string(dlg.bytes(d)) != string(upd.bytes(d)) {
+					emit(withFlags(c34Op(fx, false, []c34Splice{
+						{dlg.off, dlg.end - dlg.off, append([]byte{}, upd.bytes(d)...)},
+						{upd.off, upd.end - upd.off, append([]byte{}, dlg.bytes(d)...)}}), mask))
+					count++
+				}
+				// delegation payload replaced by decodable alternatives (DlgPayload is []any):
+				// re-framed empty list, an injected item, an injected made-up certificate
+				fakeCert := append([]byte{0x84, 0x00, 0x58, 0x20}, make([]byte, 32)...)
+				fakeCert = append(append(fakeCert, 0x58, 0x20), make([]byte, 32)...)
+				fakeCert = append(append(fakeCert, 0x58, 0x40), make([]byte, 64)...)
+				for _, rep := range [][]byte{{0x80}, {0x9f, 0xff}, {0x81, 0x00}, {0x9f, 0x00, 0xff},
+					append(append([]byte{0x9f}, fakeCert...), 0xff), append([]byte{0x81}, fakeCert...)} {
+					if string(dlg.bytes(d)) != string(rep) {
+						emit(withFlags(c34Op(fx, false, []c34Splice{{dlg.off, dlg.end - dlg.off, rep}}), mask))
+						count++
+					}
+				}
+				// update payload: every empty list inside it re-framed (80 <-> 9fff)
+				for _, k := range upd.kids {
+					var rep []byte
+					switch string(k.bytes(d)) {
+					case "\x80":
+						rep = []byte{0x9f, 0xff}
+					case "\x9f\xff":
+						rep = []byte{0x80}
+					}
+					if rep != nil {
+						emit(withFlags(c34Op(fx, false, []c34Splice{{k.off, k.end - k.off, rep}}), mask))
+						count++
+					}
+				}
+			}
+			for _, k := range targets {
+				off := k.end - 1
+				emit(withFlags(c34Op(fx, false, []c34Splice{{off, 1, []byte{d[off] ^ 0x01}}}), mask))
+				count++
+			}
+		}
 	}
 	// 2. fixed structural set per block
 	for _, s := range sites {
